@@ -1286,10 +1286,25 @@ type enumLoop struct {
 	// the point (and waits for the write lock if Lightning Stream holds it then)
 	Queued bool `json:"queued,omitempty"`
 	LogK   int  `json:"log_k,omitempty"`
+	// EmptyStart: the instance starts with an EMPTY LMDB and no peer ever publishes; the application inserts one
+	// key (published) and the change under test - a deletion - removes it again: the LMDB holds no live data then
+	EmptyStart bool `json:"empty_start,omitempty"`
 }
 
 func (e enumLoop) toCase() LoopCase {
 	c := LoopCase{Native: e.Native, ReceiveOnly: e.ReceiveOnly, Sweeper: e.Sweeper, Force: e.Force, SweeperRuns: e.SweeperRuns, OwnAtStart: e.OwnAtStart}
+	if e.EmptyStart {
+		ts := uint64(0)
+		if e.Native {
+			ts = 20
+		}
+		c.Plan = []SAct{
+			{Kind: "app", Changes: []SChange{{DBI: 0, Key: 1, Op: "put", Val: model.Bytes("only"), TS: ts}}},
+			{Kind: "app", At: "sync.before-sleep", Occ: 1, Changes: []SChange{{DBI: 0, Key: 1, Op: "put", Val: model.Bytes("only2"), TS: ts + 5}}},
+			{Kind: "app", At: e.Point, Occ: 1, Changes: []SChange{{DBI: 0, Key: 1, Op: "del", TS: 30}}, Held: e.Held},
+		}
+		return c
+	}
 	ts := uint64(0)
 	if e.Native {
 		ts = 20
@@ -1392,6 +1407,14 @@ func TestC03Enum(t *testing.T) {
 						// the same commit on a receive-only instance (captures, merges, never uploads)
 						if !yield(enumLoop{Native: native, Point: p, Kind: k, PeerNoop: false, LocalFirst: true, ReceiveOnly: true}) {
 							return
+						}
+						// an instance that started empty and has no peers: the application deletes the only key it ever wrote
+						if k == "delete" {
+							for _, held := range []bool{false, true} {
+								if !yield(enumLoop{Native: native, Point: p, Kind: k, EmptyStart: true, Held: held}) {
+									return
+								}
+							}
 						}
 						// the application's transaction starts while the loop runs, at the n-th log line after the point: where
 						// Lightning Stream holds the write lock at that line, it queues up and commits right behind LS's transaction
